@@ -341,10 +341,10 @@ PROPS = {
             "cases": lambda tier, seed: general(tier, seed, "C01"),
             "owned_oracles": ["O vec-mismatch", "macro-evals", "X signal"], "owned_diffs": ["result", "contents", "panic", "crash"],
             "partial_missing": ["refinement to Vec semantics proved for every history over push, pop, insert, remove, swap_remove, truncate, clear, reserve, reserve_exact, shrink_to, shrink_to_fit (C01_refines_vec_partial); every other operation of the property (resize, extend family, append, split_off, dedup, retain, iterators, clone, conversions, macro) is tied to Vec and to the model by the three-way correspondence only"]},
-    "C02": {"modules": ["MiniVecProof.Props.C02"],
+    "C02": {"modules": ["MiniVecProof.Props.C02", "MiniVecProof.Props.C10", "MiniVecProof.Props.C10IntoIter"],
             "cases": lambda tier, seed: general(tier, seed, "C02"),
             "owned_oracles": ["O ledger", "X signal"], "owned_diffs": ["own", "crash"],
-            "partial_missing": ["exactly-once destruction and conservation proved for every completed history over the 11 operations of POp followed by Drop (C02_exactly_once_partial, C02_no_double_drop, C02_no_leak); iterators (Drain, Splice, DrainFilter, IntoIter) and the remaining operations by correspondence + per-element ledger"]},
+            "partial_missing": ["exactly-once destruction and conservation proved for every completed history over the 11 operations of POp followed by Drop (C02_exactly_once_partial, C02_no_double_drop, C02_no_leak); for Drain and IntoIter dropped after any interleaving of steps: yielded front ++ destroyed ++ yielded back reversed = the selected range (specSteps_partition + C10_drain_partial / C10_into_iter_partial); Splice, DrainFilter and the remaining operations by correspondence + per-element ledger"]},
     "C03": {"modules": ["MiniVecProof.Props.C01", "MiniVecProof.Proofs.MemDrop", "MiniVecProof.Props.C09"],
             "cases": lambda tier, seed: general(tier, seed, "C03", modes=("debug", "release")),
             "owned_oracles": ["O alloc", "O cap"], "owned_diffs": ["alloc", "ub", "crash"],
@@ -374,10 +374,10 @@ PROPS = {
         "owned_diffs": ["result", "panic", "alloc", "cap", "crash", "ub"],
         "partial_missing": ["lifting of the generated-code theorems through the hand model for resize / resize_with / mini_vec![x; n] / extend_from_slice is by correspondence only"],
     },
-    "C10": {"modules": ["MiniVecProof.Props.C10", "MiniVecProof.Props.C06"],
+    "C10": {"modules": ["MiniVecProof.Props.C10", "MiniVecProof.Props.C10IntoIter", "MiniVecProof.Props.C06"],
             "cases": lambda tier, seed: [("debug", corpus("debug", "C10") + iterator_cases(tier, seed, "debug"))],
             "owned_oracles": ["O vec-mismatch", "X signal 11"], "owned_diffs": ["result", "contents", "ub", "crash"],
-            "partial_missing": ["proved for Drain on every storage state (C10_drain_partial): every interleaving of front/back steps yields what the list iterator over es[st..en] yields, exact counts, None for ever after the ends meet, vector untouched by steps, and drop leaves prefix ++ suffix destroying exactly the unyielded elements; Splice, DrainFilter, IntoIter and as_slice: yielded sequences and counts checked against std's iterators and the model by correspondence only"]},
+            "partial_missing": ["proved for Drain on every storage state (C10_drain_partial): every interleaving of front/back steps yields what the list iterator over es[st..en] yields, exact counts, None for ever after the ends meet, vector untouched by steps, and drop leaves prefix ++ suffix destroying exactly the unyielded elements; proved for IntoIter on every storage state (C10_into_iter_partial): same protocol, exact len(), as_slice() = unyielded elements, drop destroys exactly those and frees the block with its layout; Splice, DrainFilter: yielded sequences and counts checked against std's iterators and the model by correspondence only"]},
     "C11": {
         "modules": ["MiniVecProof.Props.C11"],
         "cases": lambda tier, seed: [("debug", corpus("debug", "C11") + argument_grid("debug")), ("release", argument_grid("release"))] if tier == "thorough"
